@@ -67,7 +67,7 @@ def gen_history(rng):
         sd = {"kind": "scripted", "mr": 1, "seed": rng.randrange(1 << 30), "t0": 0, "mode": "full"}
     return {"period": rng.choice([1, 5, 15]), "network": {"stations": stations, "constraints": cons, "tol": None},
             "sessions": sessions, "recompute": [], "scheduler": sd, "np_seed": 0, "early": rng.random() < 0.55,
-            "early_as": rng.choice(["bool", "bool", "np", "int", "attr"])}
+            "early_as": rng.choice(["bool", "bool", "np", "int", "attr"]), "verbose": rng.random() < 0.3}
 
 
 def cases(seed, tier):
